@@ -61,7 +61,7 @@ public:
 
     /** Add a timer to another one */
     void merge(const TbfTimer& inOther) {
-        cumulateTime = inOther.cumulateTime;
+        cumulateTime += inOther.cumulateTime;
     }
 };
 
